@@ -178,6 +178,14 @@ func (l *IOLog) IO(kind string, path string, off int64, n int, buf []byte) {
 			}
 			ev.Off = fs.Written
 		}
+	case "truncate":
+		if fs != nil && off >= 0 {
+			// the logical size is cut back (recovery of a torn tail) or confirmed (mmap shrink)
+			fs.Written = off
+			if fs.Durable > off {
+				fs.Durable = off
+			}
+		}
 	case "close":
 		if fs != nil {
 			fs.Open--
